@@ -1,2 +1,2 @@
 LINK := full
-KITS := chainkit
+KITS := chainkit p2pkit
